@@ -231,3 +231,7 @@ for (_n, _typ, _args, _calls) in _FFT_ROWS:
 HARNESSES["c07_ftio_sizing"] = H("c07f", ["C07", "C04"], cap=600, mem=7, stubs=FFT_STUBS, sym="none",
     bounds="FftFixedInOut::new for 6 concrete (rate_in, rate_out, chunk) triples: in*rate_out == out*rate_in, in >= chunk and smallest")
 HARNESSES["c07_fft_witness"] = H("c07f", ["C07", "C04"], cap=300, mem=7, stubs=FFT_STUBS, sym="none", bounds="must FAIL (vacuity witness)", witness=True)
+
+for _n, _t in (("c03_ffo_three_changes", "FastFixedOut<f64> Linear"), ("c03_sfo_three_changes", "SincFixedOut<f64>+Probe(8,2) Linear")):
+    HARNESSES[_n] = H("c03", ["C03", "C04"], cap=900, sym="third ratio change: k/32 (D_grid); ramp; surplus lengths",
+        bounds="%s chunk 3, max_rel 2; concrete history: call at 1.0, setter 1.25 + call, setter 1.25 + call; then symbolic setter + call (every setter recomputes the input need); region [base]" % _t)
